@@ -436,3 +436,6 @@ UNITS += [bounded_twin(count, 'String_count_small', ['-DNMAX=6'], 12, 'texts of 
 _bat = replay.battery('C08/driver.cpp', ['battery'])
 for _u in UNITS:
     _u.replay = replay.first_of(_u.replay, _bat) if _u.replay else _bat
+
+# planted one-token breaks for the newer units (thorough tier: each must make an obligation fail)
+lower_frame.planted = [('body', r'String_fix\(&s, [^;]*\);', ';')]
